@@ -1509,13 +1509,30 @@ class SpaceManager(SharedSpaceOperations):
     def del_cells_formula(self, cells):
         self.set_cells_formula(cells, NULL_FORMULA)
 
+    def _takes_over(self, space, subspace, name):
+        """True if ``subspace`` will derive ``name`` from ``space``
+
+        ``subspace`` has a reference ``name``. It keeps it if it defines
+        the reference itself, or derives it from a base that comes
+        before ``space`` in its MRO.
+        """
+        if not subspace.own_refs[name].is_derived():
+            return False
+        for b in self._get_space_bases(subspace):
+            if b is space:
+                return True
+            elif name in b.own_refs and not b.own_refs[name].is_derived():
+                return False
+        return False
+
     def _check_subs_relrefs(self, space, name, value, refmode):
 
         # Check if relative ref is possible when refmode is 'relative'
         if isinstance(value, Interface) and refmode == "relative":
             basevalue = value._impl.idstr
             for subspace in self._get_subs(space):
-                if name in subspace.own_refs:
+                if name in subspace.own_refs and not self._takes_over(
+                        space, subspace, name):
                     continue
                 else:
                     subvalue = self._graph.get_relative(
